@@ -535,6 +535,8 @@ impl ErasedNode for Node {
         }
         tracing::debug!("node {:?} became necessary", self.id);
         state.num_nodes_became_necessary.increment();
+        #[cfg(cormacrelf_incremental_rs_verif)]
+        crate::verif::emit(crate::verif::Event::BecameNecessary(self.id.0));
         self.maybe_handle_after_stabilisation(state);
         /* Since [node] became necessary, to restore the invariant, we need to:
         - add parent pointers to [node] from its children.
@@ -569,6 +571,8 @@ impl ErasedNode for Node {
     fn became_unnecessary(&self, state: &State) {
         tracing::debug!("node {:?} became unnecessary", self.id);
         state.num_nodes_became_unnecessary.increment();
+        #[cfg(cormacrelf_incremental_rs_verif)]
+        crate::verif::emit(crate::verif::Event::BecameUnnecessary(self.id.0));
         self.maybe_handle_after_stabilisation(state);
         state.set_height(self.packed(), -1);
         self.remove_children(state);
@@ -577,6 +581,8 @@ impl ErasedNode for Node {
         }
         debug_assert!(!self.needs_to_be_computed());
         if self.is_in_recompute_heap() {
+            #[cfg(cormacrelf_incremental_rs_verif)]
+            crate::verif::probe(crate::verif::Probe::RemovedFromHeapUnnecessary);
             state.recompute_heap.remove(self.packed());
         }
     }
@@ -614,6 +620,8 @@ impl ErasedNode for Node {
             // t.only_in_debug.expert_nodes_created_by_current_node <- []);
         }
         state.num_nodes_recomputed.increment();
+        #[cfg(cormacrelf_incremental_rs_verif)]
+        crate::verif::emit(crate::verif::Event::Recompute(self.id.0));
         self.recomputed_at.set(state.stabilisation_num.get());
 
         let Some(kind) = self.kind() else {
@@ -830,6 +838,12 @@ impl ErasedNode for Node {
             [parent] immediately and save adding it to and then removing it from the
             recompute heap. */
             // t.num_nodes_recomputed_directly_because_one_child += 1;
+            #[cfg(cormacrelf_incremental_rs_verif)]
+            crate::verif::probe(if can_recompute_now {
+                crate::verif::Probe::DirectRecomputeScope
+            } else {
+                crate::verif::Probe::DirectRecomputeMinHeight
+            });
             tracing::info!(
                 "can_recompute_now {:?}, proceeding to recompute",
                 can_recompute_now
@@ -862,6 +876,8 @@ impl ErasedNode for Node {
             return;
         }
         tracing::debug!("invalidating node");
+        #[cfg(cormacrelf_incremental_rs_verif)]
+        crate::verif::emit(crate::verif::Event::Invalidate(self.id.0));
         self.maybe_handle_after_stabilisation(state);
         self.value_opt.take();
         // this was for node-level subscriptions. we don't have those
@@ -904,6 +920,8 @@ impl ErasedNode for Node {
         drop(prop_stack);
         debug_assert!(!self.needs_to_be_computed());
         if self.is_in_recompute_heap() {
+            #[cfg(cormacrelf_incremental_rs_verif)]
+            crate::verif::probe(crate::verif::Probe::RemovedFromHeapInvalidated);
             state.recompute_heap.remove(self.packed());
         }
     }
@@ -1330,9 +1348,13 @@ impl ErasedNode for Node {
                 let old_child_node = &*old_child;
                 // ptr_eq is better than ID checking -- no vtable call,
                 if old_child_node.ptr_eq(&*new_child) {
+                    #[cfg(cormacrelf_incremental_rs_verif)]
+                    crate::verif::probe(crate::verif::Probe::BindRhsSameNode);
                     // nothing to do! nothing changed!
                     return;
                 }
+                #[cfg(cormacrelf_incremental_rs_verif)]
+                crate::verif::probe(crate::verif::Probe::BindRhsSwapped);
                 /* We remove [old_child] before adding [new_child], because they share the same
                 child index. */
                 old_child_node.remove_parent(child_index, bind_main);
@@ -1443,6 +1465,8 @@ impl ErasedNode for Node {
 
         let last_parent_index = child_parents.len() - 1;
         if (parent_index as usize) < last_parent_index {
+            #[cfg(cormacrelf_incremental_rs_verif)]
+            crate::verif::probe(crate::verif::Probe::RemoveParentSwapped);
             // we swap the parent the end of the array into this one's position. This requires much fewer index twiddles than shifting
             // all subsequent indices back by one.
             let end_p_weak = child_parents[last_parent_index].clone();
@@ -1786,6 +1810,8 @@ impl Node {
             }
         } else {
             tracing::info!("cutoff applied to value change");
+            #[cfg(cormacrelf_incremental_rs_verif)]
+            crate::verif::probe(crate::verif::Probe::CutoffApplied);
         }
         None
     }
@@ -1795,6 +1821,8 @@ impl Node {
             let latest = child.value_as_any()?.clone_any();
             self.maybe_change_value(latest, state)
         } else {
+            #[cfg(cormacrelf_incremental_rs_verif)]
+            crate::verif::probe(crate::verif::Probe::BindMainInvalidRhs);
             self.invalidate_node(state);
             state.propagate_invalidity();
             None
